@@ -30,6 +30,9 @@ def make(spec):
         kw['cell'] = np.array([[10.5, 0, 0], [1.5, 11.25, 0], [-2.25, 0.75, 12.125]])
     elif cell == 'partly-tilted':
         kw['cell'] = np.array([[10.5, 0, 0], [0, 11.25, 0], [-2.25, 0, 12.125]])
+    elif cell == 'strong-tilt':
+        # tilt factors beyond half a box length (LAMMPS warns, the cell is what the structure says): xy = 0.7 lx, xz = -0.6 lx, yz = 0.8 ly
+        kw['cell'] = np.array([[10.5, 0, 0], [7.35, 11.25, 0], [-6.3, 9.0, 12.125]])
     elif cell == 'tiny-tilt':
         kw['cell'] = np.array([[10.5, 0, 0], [6e-5, 11.25, 0], [-3e-5, 8e-5, 12.125]])
     coeffs = spec['coeffs']
@@ -201,7 +204,7 @@ def run(rec, tier, seed):
                 "and compared with the structure, re-read with mofun and compared, re-written to a byte-identical fixed point; path / file-object "
                 "dispatch of Atoms.save / Atoms.load. distinct = specs")
     rnd = random.Random(seed)
-    cells = [None, 'ortho', 'tilted', 'partly-tilted', 'tiny-tilt']
+    cells = [None, 'ortho', 'tilted', 'partly-tilted', 'tiny-tilt', 'strong-tilt']
     termsets = [dict(), dict(bond=1), dict(bond=2, angle=1), dict(bond=2, angle=2, dihedral=1, improper=2), dict(dihedral=2), dict(improper=1), dict(dihedral=1, improper=2)]
     ttypes = [dict(bond=1, angle=1, dihedral=1, improper=1), dict(bond=2, angle=3, dihedral=1, improper=2), dict(bond=3, angle=1, dihedral=2, improper=3)]
     k = 0
